@@ -828,15 +828,22 @@ class CircuitTemplate(AbstractBaseTemplate):
 
         # group edges that should be vectorized
         old_edges = self.collect_edges(delay_info=True)
+        applied_edge_values = set()
+        if edge_values:
+            # values addressed to an edge by its frontend source and target variable are set on that edge before the
+            # edges are grouped (the grouped edges carry the labels of the vectorized nodes)
+            for i, (source, target, template, edge_dict, delayed) in enumerate(old_edges):
+                if (source, target) in edge_values:
+                    old_edges[i] = (source, target, template, dict(edge_dict, **edge_values[(source, target)]), delayed)
+                    applied_edge_values.add((source, target))
         edge_col = self._group_edges(edges=old_edges)
 
         # create final set of vectorized edges
         edges = []
-        applied_edge_values = set()
         for (source, target, template, _), values in edge_col.items():
 
             # update edge template default values with passed edge values,
-            if (source, target) in edge_values:
+            if (source, target) in edge_values and (source, target) not in applied_edge_values:
                 values.update(edge_values[(source, target)])
                 applied_edge_values.add((source, target))
             weight = values.pop("weight", 1.)
